@@ -71,6 +71,7 @@ type FuncContract struct {
 	Modifies   []string
 	Loops      map[int]*LoopContract
 	NoPanic    bool
+	HoldsRead  map[string]bool // subset of Holds held in read mode only
 	MayPanic   bool
 	Trusted    bool
 	Pure       bool
@@ -145,7 +146,7 @@ type Contracts struct {
 	Nclause int
 }
 
-var keywordRe = regexp.MustCompile(`^(spec|pred|axiom|lemma|theorem|globalinv|stablekeys|type|func|iface|functype|extern|props|atomic|holds|at_call|after_call|requires|ensures|ensures_panic|ghost_ensures|modifies|loop|assume|nopanic|maypanic|trusted|pure|readsclock|noaxioms|onlyaxioms|wiring|params|immutable|stable|guards|sink|protects|guarded_by|ghost|lockinv|extsync|mutators|setup|strings|noinline)\b`)
+var keywordRe = regexp.MustCompile(`^(spec|pred|axiom|lemma|theorem|globalinv|stablekeys|type|func|iface|functype|extern|props|atomic|holds_read|holds|at_call|after_call|requires|ensures|ensures_panic|ghost_ensures|modifies|loop|assume|nopanic|maypanic|trusted|pure|readsclock|noaxioms|onlyaxioms|wiring|params|immutable|stable|guards|sink|protects|guarded_by|ghost|lockinv|extsync|mutators|setup|strings|noinline)\b`)
 
 var labelRe = regexp.MustCompile(`^([A-Za-z_][A-Za-z_0-9]*):([^:]|$)`)
 var propsRe = regexp.MustCompile(`^\{([A-Z0-9, ]+)\}\s*`)
@@ -423,6 +424,13 @@ func (cs *Contracts) LoadContractFile(path, pkg string) error {
 				curF.Atomic = rest
 			case "holds":
 				curF.Holds = append(curF.Holds, rest)
+			case "holds_read":
+				// the caller holds the lock at least in read mode; the function may only read what it guards
+				curF.Holds = append(curF.Holds, rest)
+				if curF.HoldsRead == nil {
+					curF.HoldsRead = map[string]bool{}
+				}
+				curF.HoldsRead[rest] = true
 			case "nopanic":
 				curF.NoPanic = true
 			case "maypanic":
